@@ -16,16 +16,16 @@ CLAIMS = {
              note=POOLNOTE,
              tech="Coq proof: inductive invariant over an LTS (Permutation conservation + reorder-buffer drain lemma), history-level refinement; trace-acceptance correspondence under a controlled scheduler",
              ref="DESIGN.md §4 C01-C04"),
- "C02": dict(text="Coq theorems: in every reachable state inside the calls some thread or process can move (deadlock freedom: consumer never "
-             "blocked on a result that will not come, paused feeder always resumed, full queues drained, retired workers replaced) for EVERY "
-             "configuration of the property; a natural-number measure that EVERY step decreases (no infinite run; explicit bound on the number "
-             "of steps); hence under every scheduler (any function picking an enabled event when one exists) every call of the history "
-             "terminates with exactly its results; the pool context can be left (MDone reached) under the stated capacity condition "
-             "exit_cap_ok. Outside that condition the statement is REFUTED by a machine-checked witness (C02_exit_hang_refuted) that the "
-             "harness replays on the real code: open known finding F4'. Tied to /repo by trace acceptance; hangs of the implementation are "
-             "detected structurally by the scheduler (no enabled thread).",
+ "C02": dict(text="Coq theorems: in every reachable state in which the run is not over some thread or process can move (deadlock freedom: "
+             "consumer never blocked on a result that will not come, paused feeder always resumed, full queues drained, retired workers "
+             "replaced, every stop order taken when the pool is left) for EVERY configuration of the property, with no condition on queue "
+             "capacities; a natural-number measure that EVERY step decreases (no infinite run; explicit bound on the number of steps); hence "
+             "under every scheduler (any function picking an enabled event when one exists) every call of the history terminates with exactly "
+             "its results and the pool context is left (MDone reached). The exit hang found earlier (F4') is repaired in /repo (ccf59e2); the "
+             "invariant that carries the repair (retirement notices precede the stop token in the replace queue) is a theorem. Tied to /repo "
+             "by trace acceptance; hangs of the implementation are detected structurally by the scheduler (no enabled thread).",
              note=POOLNOTE + "Late items / late StopIteration of the input iterable are modelled as the feeder not being scheduled. Timeouts (join_timeout) are outside the property.",
-             tech="Coq proof: deadlock freedom from six inductive invariants (conservation, flow control, replace-token accounting, pending-replacement, exit-order accounting), strictly decreasing potential function, refutation witness by vm_compute; trace-acceptance correspondence under a controlled scheduler",
+             tech="Coq proof: deadlock freedom from seven inductive invariants (conservation, flow control, replace-token accounting, pending-replacement, notices-before-token, exit-order accounting), strictly decreasing potential function; trace-acceptance correspondence under a controlled scheduler",
              ref="DESIGN.md §4 C01-C04"),
  "C03": dict(text="Coq theorems over all histories of calls on one pool instance (ordered / unordered / empty / until_all_ready in any order) and all "
              "schedules incl. every interleaving of retiring workers and the replace thread: call k of the history is matched with the k-th "
